@@ -109,7 +109,7 @@ pub fn spec(id: &str) -> Option<PropSpec> {
             families: vec![(Family::C02, 100)],
             quick_runs: 60_000,
             thorough_runs: 6_000_000,
-            rule: "codec-level simulation: the real v3 / v5 codecs behind a simulated transport that decides how the byte stream is cut into reads. One run = a stream of 1..4 frames produced by the independent encoder (refcodec) from random valid packets (all packet types, v5 properties, payloads 0..20000 bytes), in 5 of 6 runs with one structure-aware mutation (remaining length inflated/deflated, truncation at any offset, bit flip, byte replaced, inner two-byte length +-k, QoS 3, zero packet id, invalid UTF-8 byte, unknown property, repeated once-only property, unknown reason code, splice, fixed-header flag flip), in 1 of 8 runs 0..6 random bytes; a PINGREQ sentinel follows; inbound maximum 0/64/300, min chunk 0/1/4/1024/32768; the stream is decoded in one read and under 2..4 fragmentations (one read, byte at a time, dense cuts at the start, random cut sets). Oracle: no panic or arithmetic overflow (overflow checks on); same packets, same complete payloads and the same error-or-not for every fragmentation; bytes consumed when a complete packet is returned end exactly at its frame; a frame the strict independent decoder puts into a must-reject class (length/count contradiction incl. trailing bytes, unknown or repeated property, unknown reason code, zero packet id, QoS 3, ill-formed UTF-8) is never accepted; an over-long frame is refused when only its fixed header has arrived; every accepted packet re-encodes and decodes to itself. The version-sniffing codec is private to the crate and is exercised at connection level by C19 only; distinct = (version, configuration, item kinds, error kind, stream length); non-trivial = a mutation was applied",
+            rule: "codec-level simulation: the real v3 / v5 codecs behind a simulated transport that decides how the byte stream is cut into reads. One run = a stream of 1..4 frames produced by the independent encoder (refcodec) from random valid packets (all packet types, v5 properties, payloads 0..20000 bytes), in 5 of 6 runs with one structure-aware mutation (remaining length inflated/deflated, truncation at any offset, bit flip, byte replaced, inner two-byte length +-k, QoS 3, zero packet id, invalid UTF-8 byte, unknown property, repeated once-only property, unknown reason code, splice, fixed-header flag flip), in 1 of 8 runs 0..6 random bytes; a PINGREQ sentinel follows; inbound maximum 0/64/300, min chunk 0/1/4/1024/32768; the stream is decoded in one read and under 2..4 fragmentations (one read, byte at a time, dense cuts at the start, random cut sets); for streams of at most 160 bytes one run in six additionally enumerates EVERY cut into two reads and (up to 40 bytes) EVERY cut into three reads (probe all-cuts-enumerated). Oracle: no panic or arithmetic overflow (overflow checks on); same packets, same complete payloads and the same error-or-not for every fragmentation; bytes consumed when a complete packet is returned end exactly at its frame; a frame the strict independent decoder puts into a must-reject class (length/count contradiction incl. trailing bytes, unknown or repeated property, unknown reason code, zero packet id, QoS 3, ill-formed UTF-8) is never accepted; an over-long frame is refused when only its fixed header has arrived; every accepted packet re-encodes and decodes to itself. The version-sniffing codec is private to the crate and is exercised at connection level by C19 only; distinct = (version, configuration, item kinds, error kind, stream length); non-trivial = a mutation was applied",
             nontrivial: nt_c02,
             assumptions: vec![
                 "the independent codec (refcodec) classifies frames correctly; U+0000 inside a string is not counted as ill-formed UTF-8",
@@ -123,7 +123,7 @@ pub fn spec(id: &str) -> Option<PropSpec> {
             families: vec![(Family::C10, 50), (Family::C10C, 50)],
             quick_runs: 30_000,
             thorough_runs: 3_000_000,
-            rule: "two levels. Codec level: a stream of 1..4 valid packets (payloads 0..20000 bytes) decoded in one read and under 2..4 fragmentations for min chunk 0/1/4/1024/32768: same packets and payload bytes, each PUBLISH announced once with its declared size, pieces add up to it, exactly one final piece, no non-final non-empty piece below the minimum, nothing leaks into the next packet, valid streams decode completely. Connection level (real dispatcher, gated handlers): 1..4 publishes with payload sizes around chunk and varint boundaries (0..300 KiB) delivered in one piece, byte at a time, around packet boundaries or in random cuts, max payload buffer 64 B..128 KiB, read buffer 1..64 KiB, readers eager (read_all at once) / late (read_all when the simulator allows, possibly after every piece has arrived) / lazy (read() piece by piece, paced by the simulator) / abandoning: the handler receives exactly the bytes sent, in order; distinct = abstract history signature; non-trivial = a payload was delivered to the decoder or the handler in more than one piece",
+            rule: "two levels. Codec level: a stream of 1..4 valid packets (payloads 0..20000 bytes) decoded in one read and under 2..4 fragmentations (plus, for short streams in a sixth of the runs, every cut into two and three reads) for min chunk 0/1/4/1024/32768: same packets and payload bytes, each PUBLISH announced once with its declared size, pieces add up to it, exactly one final piece, no non-final non-empty piece below the minimum, nothing leaks into the next packet, valid streams decode completely. Connection level (real dispatcher, gated handlers): 1..4 publishes with payload sizes around chunk and varint boundaries (0..300 KiB) delivered in one piece, byte at a time, around packet boundaries or in random cuts, max payload buffer 64 B..128 KiB, read buffer 1..64 KiB, readers eager (read_all at once) / late (read_all when the simulator allows, possibly after every piece has arrived) / lazy (read() piece by piece, paced by the simulator) / abandoning: the handler receives exactly the bytes sent, in order; distinct = abstract history signature; non-trivial = a payload was delivered to the decoder or the handler in more than one piece",
             nontrivial: nt_c10,
             assumptions: base,
         },
